@@ -13,6 +13,7 @@
   returns the final state and the answer to every NewAddress request.
 -/
 import MW.Lemmas.KsRestore
+import MW.Gen.Keystore
 import MW.Model.Ledger
 import MW.Spec.Chain
 namespace MW.Props.C12
@@ -377,5 +378,17 @@ theorem addrUsed_snoc (c : List Block) (b : Block) (a : Model.Ledger.Addr) :
   simp [Spec.Chain.addrUsed, List.any_append]
 
 end
+
+/-- TIE B: the constants and statement shapes the model follows, as re-extracted from today's source
+    (go/cmd/extract/x_keystore.go): index-space bound, branch numbers, the gap-limit guard and window
+    bounds of nextAddresses, its lookup by (branch, index), the restore loop bound / nextIndex update /
+    stored prefix of createManagerKeyScope, hint 0 ↦ 1, NewAddress = NextAddresses(external, 1) +
+    PutNewAddress, and the configuration's gap limit ≥ 2. -/
+theorem gen_tie :
+    maxAddrs = Gen.Keystore.maxAddressesPerAccount ∧ externalBranch = Gen.Keystore.externalBranch ∧
+    internalBranch = Gen.Keystore.internalBranch ∧
+    Gen.Keystore.gapWindowShape = true ∧ Gen.Keystore.indexKeyedByBranch = true ∧
+    Gen.Keystore.restoreScanShape = true ∧ Gen.Keystore.hintDefaultShape = true ∧
+    Gen.Keystore.newAddressCallShape = true ∧ Gen.Keystore.configGapAtLeast2 = true := by decide
 
 end MW.Props.C12
